@@ -3,6 +3,8 @@ import PqModel.Seek
 import PqModel.SliceRepeated
 import PqModel.SeekLayers
 import PqModel.ReaderSeek
+import PqModel.ReaderCursor
+import PqModel.ReadRowsValues
 
 namespace Driver.Ops.C08
 open Driver PqModel.Seek
@@ -88,6 +90,16 @@ def parseROp? (s : String) : Option ROp :=
   | 'r' :: ds => (String.ofList ds).toNat?.map .read
   | _ => none
 
+/-- positions at or beyond the last row are reported as the end (the harness counts that way) -/
+def showROutClamped (T : Nat) : ROut → String
+  | .rows st len => s!"p{min st T}:{len}"
+  | o => showROut o
+
+def totalOf (ms : List Machine.{1}) : Nat :=
+  match ms with
+  | [] => 0
+  | m :: _ => m.total
+
 def handleLayers (toks : List String) : Option String :=
   match toks with
   -- `multi.run <chunk|chunk|...> <with-index 0/1> <ops>`: multiPages over the chunks of one column
@@ -107,11 +119,106 @@ def handleLayers (toks : List String) : Option String :=
   -- `rows.run <column;column;...> <with-index 0/1> <ops>`: the row reader, a column = its chunks
   | ["rows.run", cols, idx, ops] => some <|
     match (cols.splitOn ";").mapM (fun c => parseChunks? c (idx == "1")), parseList? parseROp? ops with
-    | some css, some os => "ok " ++ " ".intercalate ((routs (rinit (css.map columnMachine)) os).map showROut)
+    | some css, some os =>
+      let ms := css.map columnMachine
+      "ok " ++ " ".intercalate ((routs (rinit ms) os).map (showROutClamped (totalOf ms)))
+    | _, _ => "bad-op"
+  -- `rrows.run <column;column;...> <with-index 0/1> <off> <len> <ops>`: the row reader of a row-range
+  -- view of one row group (a column = the page row counts of its chunk)
+  | ["rrows.run", cols, idx, off, len, ops] => some <|
+    match (cols.splitOn ";").mapM (fun c => (parseList? parseNat? c).bind fun r => chunkMachine? r false (idx == "1")),
+          parseNat? off, parseNat? len, parseList? parseROp? ops with
+    | some bs, some off, some len, some os =>
+      match bs.mapM (fun b => if h : off + len ≤ b.total then some (rangeM b off len h) else none) with
+      | some ms => "ok " ++ " ".intercalate ((routs (rinit ms) os).map (showROutClamped len))
+      | none => "bad-op"
+    | _, _, _, _ => "bad-op"
+  | _ => none
+
+/-! ### the deprecated `Reader` (two row readers, one cursor): `readerx.run` -/
+open PqModel.ReaderCursor in
+/-- `rowGroupRows` over the column machines, as the executable part of a row reader -/
+def rowsR (ms : List Machine.{1}) : RowR.{2} := { σ := RSt.{1}, step := rstep, init := rinit ms }
+
+/-- ops of `readerx.run`: `s<k>` SeekToRow, `r<n>` ReadRows(n), `t<n>` n calls of `Read(&v)` (answer:
+    the rows they delivered together), `g<n>` GenericReader.Read of n (a `ReadRows` loop), `z` Reset -/
+inductive XTok where
+  | seek (k : Nat)
+  | rows (n : Nat)
+  | typed (n : Nat)
+  | reset
+
+def parseXTok? (s : String) : Option XTok :=
+  match s.toList with
+  | ['z'] => some .reset
+  | 's' :: ds => (String.ofList ds).toNat?.map .seek
+  | 'r' :: ds => (String.ofList ds).toNat?.map .rows
+  | 'g' :: ds => (String.ofList ds).toNat?.map .rows
+  | 't' :: ds => (String.ofList ds).toNat?.map .typed
+  | _ => none
+
+open PqModel.ReaderCursor in
+/-- `n` calls of `Read(&v)`, stopping at the first that delivers nothing: `(state, start, rows, failed)` -/
+def typedLoop {bf br : RowR} : Nat → St bf br → Nat → Nat → St bf br × Nat × Bool
+  | 0, s, _, got => (s, got, false)
+  | n + 1, s, start, got =>
+    match (step s .read).2 with
+    | .rows _ 1 => typedLoop n (step s .read).1 start (got + 1)
+    | .rows _ _ => ((step s .read).1, got, false)
+    | _ => ((step s .read).1, got, true)
+
+open PqModel.ReaderCursor in
+def runX {bf br : RowR} (T : Nat) : St bf br → List XTok → List String
+  | _, [] => []
+  | s, .seek k :: ops => showROut (step s (.seek k)).2 :: runX T (step s (.seek k)).1 ops
+  | s, .reset :: ops => "ok" :: runX T (step s .reset).1 ops
+  | s, .rows n :: ops => showROutClamped T (step s (.readRows n)).2 :: runX T (step s (.readRows n)).1 ops
+  | s, .typed n :: ops =>
+    let r := typedLoop n s s.rowIndex 0
+    (if r.2.2 && r.2.1 == 0 then "fail" else s!"p{min s.rowIndex T}:{r.2.1}") :: runX T r.1 ops
+
+open PqModel.ReaderCursor in
+def handleCursor (toks : List String) : Option String :=
+  match toks with
+  -- `readerx.run <column;column;...> <with-index 0/1> <ops>`: parquet.Reader / GenericReader over a file
+  | ["readerx.run", cols, idx, ops] => some <|
+    match (cols.splitOn ";").mapM (fun c => parseChunks? c (idx == "1")), parseList? parseXTok? ops with
+    | some css, some os =>
+      let ms := css.map columnMachine
+      "ok " ++ " ".intercalate (runX (totalOf ms) (init (rowsR ms) (rowsR ms)) os)
     | _, _ => "bad-op"
   | _ => none
 
+/-! ### the value-level loop of `ReadRows`: `rowsv.run` -/
+open PqModel.ReadRowsValues
+
+/-- the batches `ReadValues` delivers for a page with a value buffer of `b` slots -/
+def chunksOf (b : Nat) : Nat → List Nat → List (List Nat)
+  | 0, _ => []
+  | _, [] => []
+  | fuel + 1, l => l.take b :: chunksOf b fuel (l.drop b)
+
+def runV (c : ColV Nat) : List Nat → List String
+  | [] => []
+  | n :: ns =>
+    let r := colRows id n c
+    s!"{rowCount r.2}:{",".intercalate ((r.2.take (rowCount r.2)).map (fun row => toString row.length))}" :: runV r.1 ns
+
+/-- `rowsv.run <bufsize> <n1,n2,...> <pages of repetition levels: page|page|...>`: one column read
+    sequentially with `ReadRows(n1)`, `ReadRows(n2)`, ...; answer per read `<rows>:<values per row>` -/
+def handleValues (toks : List String) : Option String :=
+  match toks with
+  | ["rowsv.run", b, ns, pages] => some <|
+    match parseNat? b, parseList? parseNat? ns, (pages.splitOn "|").mapM (parseList? parseNat?) with
+    | some b, some ns, some ps =>
+      if b = 0 then "bad-op" else
+      let src := (ps.map fun p => chunksOf b p.length p).flatten
+      "ok " ++ " ".intercalate (runV { buf := [], src := src } ns)
+    | _, _, _ => "bad-op"
+  | _ => none
+
 def handle (toks : List String) : Option String :=
-  (handleBase toks).orElse fun _ => handleLayers toks
+  ((handleBase toks).orElse fun _ => handleLayers toks).orElse fun _ =>
+    (handleCursor toks).orElse fun _ => handleValues toks
 
 end Driver.Ops.C08
